@@ -283,7 +283,7 @@ impl Matrix {
     /// for that dimension will be automatically determined if possible.
     pub fn reshape_mut(&mut self, nrows: i32, ncols: i32) -> &mut Self {
         let size = self.size();
-        if nrows > 0 && ncols > 0 {
+        if nrows >= 0 && ncols >= 0 {
             assert_eq!(nrows * ncols, size as i32, "invalid shape");
             self.nrows = nrows as usize;
             self.ncols = ncols as usize;
@@ -309,7 +309,7 @@ impl Matrix {
     /// for that dimension will be automatically determined if possible.
     pub fn reshape(&self, nrows: i32, ncols: i32) -> Self {
         let size = self.size() as i32;
-        let (newrows, newcols) = if nrows > 0 && ncols > 0 {
+        let (newrows, newcols) = if nrows >= 0 && ncols >= 0 {
             assert_eq!(nrows * ncols, size as i32, "invalid shape");
             (nrows, ncols)
         } else if nrows < 0 {
